@@ -350,6 +350,22 @@ def run(pid, tier, replay):
             if not o["ok"]:
                 res.note("spec-drift: a step of the real code in %s is not a step of Pipeline.tla (implementation differs from the implementation-level model; property-level checks still decide)" % cfgname(c))
         res.cov["refinement_StepOK_checked_on"] = [cfgname(c) for c, _ in drifts]
+    if pid == "C03":
+        # the stream objects are handed to the workers by runcrypt, outside the scheduler harness: multi-chunk
+        # encryptions with real threads, each repeated, must be byte-identical to each other and to FileFormat
+        from props import c01
+        exe = c01.e2e_exe(2)
+        ejobs = [(exe, ["rt", T, 70, 134, 16, "all", "twice"]) for T in (2, 3, 4)]
+        with cf.ThreadPoolExecutor(4) as ex2:
+            parts = list(ex2.map(lambda j: wv.record(res, pid + "/e2e%d" % j[0], [j[1]]), enumerate(ejobs)))
+        evs = []
+        for part in parts:
+            for e in part:
+                e["id"] = len(evs); evs.append(e)
+        ebad, est = wv.validate_trace("WencryTrace", evs, name=pid + "/tlce2e", env={"FULL": "1"})
+        for e, why in ebad:
+            res.violation("multi-chunk encryption with real threads (T=%s n=%s cmode %s): %s" % (e.get("T"), e.get("n"), e.get("cm"), why[:250]), {"events": [e]})
+        res.cov["end_to_end_multichunk_files_recomputed"] = len(evs)
     e2e_n = 0
     if pid == "C04":
         # termination of the whole operations (runcrypt level, real threads): the scheduler harness drives
